@@ -9,6 +9,7 @@ REG = {
     "C01": ("vf.checks.ode_props", "C01"), "C02": ("vf.checks.ode_props", "C02"),
     "C03": ("vf.checks.ode_props", "C03"), "C04": ("vf.checks.ode_props", "C04"),
     "C19": ("vf.checks.c19", "C19"),
+    "C05": ("vf.checks.rates_props", "C05"), "C06": ("vf.checks.rates_props", "C06"),
 }
 
 
